@@ -430,7 +430,9 @@ Record ldef := mkLdef {
   d_ind : str; d_key : str; d_ws1 : str; (* '=' *) d_ws2 : str;
   d_first : str;              (* the part of the value on the first physical line *)
   d_more : list cont;         (* continuation lines *)
-  d_trail : str }.
+  d_trail : str;              (* blanks behind the last part *)
+  d_cmt : option (bool * str) (* an in-line remark behind them: ';' (true) or '#', then any text *)
+}.
 
 Record lsec := mkLsec {
   s_gap : list skip; s_ind : str; s_name : str; s_trail : str; s_defs : list ldef }.
@@ -450,6 +452,12 @@ Definition skip_raw (k : skip) : str :=
   | SComment i semi t => i ++ (if semi then ";"%char else "#"%char) :: t
   end.
 
+Definition cmt_raw (c : option (bool * str)) : str :=
+  match c with
+  | None => []
+  | Some (semi, t) => (if semi then ";"%char else "#"%char) :: t
+  end.
+
 Fixpoint cont_lines (cur : str) (cs : list cont) (trail : str) : list str :=
   match cs with
   | [] => [cur ++ trail]
@@ -459,7 +467,8 @@ Fixpoint cont_lines (cur : str) (cs : list cont) (trail : str) : list str :=
 Definition def_head (d : ldef) : str := d_key d ++ d_ws1 d ++ "="%char :: d_ws2 d ++ d_first d.
 
 Definition def_raws (d : ldef) : list str :=
-  map skip_raw (d_gap d) ++ cont_lines (d_ind d ++ def_head d) (d_more d) (d_trail d).
+  map skip_raw (d_gap d)
+  ++ cont_lines (d_ind d ++ def_head d) (d_more d) (d_trail d ++ cmt_raw (d_cmt d)).
 
 Definition header_raw (s : lsec) : str := s_ind s ++ "["%char :: s_name s ++ "]"%char :: s_trail s.
 
@@ -516,11 +525,20 @@ Fixpoint last_ok (cs : list cont) : bool :=
   | c :: r => match r with [] => negb (is_header (c_text c)) | _ => last_ok r end
   end.
 
+(* an in-line remark: no newline; after TrimSpace the line must end neither in '\' (it would be
+   continued) nor in ']' (it could look like a section header) *)
+Definition wf_cmt (c : option (bool * str)) : bool :=
+  match c with
+  | None => true
+  | Some (_, t) =>
+      no_lf t && negb (ends_with "\" (trim_right (cmt_raw c))) && negb (ends_with "]" (trim_right (cmt_raw c)))
+  end.
+
 (* `guard` = false leaves out the one condition that excludes finding F34 (last_ok); it is
    only used to state that the condition is necessary (C08 continuation_header_refuted) *)
 Definition wf_ldef_g (guard : bool) (d : ldef) : bool :=
   forallb wf_skip (d_gap d) && blankb (d_ind d) && blankb (d_ws1 d) && blankb (d_ws2 d)
-  && blankb (d_trail d) && trimmedb (d_first d)
+  && blankb (d_trail d) && wf_cmt (d_cmt d) && trimmedb (d_first d)
   && match d_more d with
      | [] => true
      | _ => negb (is_nil (d_first d)) && forallb wf_cont (d_more d)
@@ -566,7 +584,7 @@ Definition raw_text (e : str * str * str) : str := snd (fst e) ++ "="%char :: sn
 Definition keep_byte (c : ascii) : bool := negb (Ascii.eqb c LF) && negb (Ascii.eqb c CR).
 
 (* the plainest layout of a document: "[name]", "key = value", LF, final newline *)
-Definition canon_def (kv : str * str) : ldef := mkLdef [] [] (fst kv) [SP] [SP] (snd kv) [] [].
+Definition canon_def (kv : str * str) : ldef := mkLdef [] [] (fst kv) [SP] [SP] (snd kv) [] [] None.
 Definition canon_sec (s : str * list (str * str)) : lsec := mkLsec [] [] (fst s) [] (map canon_def (snd s)).
 Definition canon (d : doc) : ldoc := mkLdoc (map canon_sec d) [] true.
 
